@@ -1,12 +1,15 @@
-"""Generic tape minimiser.
+"""Generic tape minimiser (parallel).
 
 Because every decision of a run comes from the tape and 0 always means "the
 simplest choice", shrinking the tape shrinks everything at once: generated
 declarations, tasks, context switches, faults, history steps.
 
-Fixed-order, deterministic:  (1) delete aligned blocks (ddmin style, halving block
-sizes), (2) zero single draws, (3) lower single draws.  A candidate is accepted
-only if test(candidate) returns the *same signature* as the original violation.
+Fixed-order and deterministic: (1) delete aligned blocks (ddmin style, halving
+block sizes), (2) zero single draws, (3) lower single draws.  Each round's
+candidates are evaluated in parallel (fresh forks); among the candidates that
+reproduce the *same violation signature* the one with the shortest consumed tape
+(ties: lowest index) is accepted, so the outcome does not depend on completion
+order.
 """
 import time
 
@@ -18,25 +21,17 @@ def _strip(v):
     return v
 
 
-def minimise(values, test, want_sig, max_runs=300, max_s=120.0):
-    """values: list[int]; test(values) -> (signature | None, consumed_record).
-    consumed_record is the list of draws the candidate run actually made (so that
-    out-of-range values and unread tails are canonicalised).
-    Returns (best_values, runs_used)."""
+def minimise(values, test_many, want_sig, max_s=90.0, max_cands_per_round=48):
+    """values: list[int].
+    test_many(list_of_candidate_tapes) -> list of (signature | None, consumed_record | None)
+    Returns (best_values, candidates_evaluated)."""
     start = time.time()
-    runs = [0]
+    evaluated = [0]
 
     def out_of_budget():
-        return runs[0] >= max_runs or time.time() - start > max_s
+        return time.time() - start > max_s
 
-    def attempt(cand):
-        """-> canonical accepted tape or None"""
-        if out_of_budget():
-            return None
-        runs[0] += 1
-        sig, norm = test(cand)
-        if sig != want_sig:
-            return None
+    def canon(cand, norm):
         cand = _strip(cand)
         if norm is not None:
             norm = _strip(norm)
@@ -44,34 +39,61 @@ def minimise(values, test, want_sig, max_runs=300, max_s=120.0):
                 return norm
         return cand
 
+    def round_(cands):
+        """evaluate; return the best accepted canonical tape or None"""
+        if not cands or out_of_budget():
+            return None
+        if len(cands) > max_cands_per_round:
+            step = len(cands) / float(max_cands_per_round)
+            cands = [cands[int(i * step)] for i in range(max_cands_per_round)]
+        evaluated[0] += len(cands)
+        res = test_many(cands)
+        ok = []
+        for i, (c, (sig, norm)) in enumerate(zip(cands, res)):
+            if sig == want_sig:
+                cc = canon(c, norm)
+                ok.append((len(cc), sum(cc), i, cc))
+        if not ok:
+            return None
+        ok.sort(key=lambda t: (t[0], t[1], t[2]))
+        return ok[0][3]
+
     best = _strip(values)
     # (1) block deletion
     size = max(1, len(best) // 2)
     while size >= 1 and not out_of_budget():
-        i = 0
-        while i < len(best) and not out_of_budget():
-            cand = best[:i] + best[i + size:]
-            got = attempt(cand)
+        while not out_of_budget():
+            cands = [best[:i] + best[i + size:] for i in range(0, len(best), size)]
+            cands = [c for c in cands if len(c) < len(best)]
+            got = round_(cands)
             if got is not None and len(got) < len(best):
                 best = got
+                if size > len(best):
+                    break
             else:
-                i += size
+                break
         size //= 2
-    # (2) zero single draws, then (3) lower them by bisection
-    i = 0
-    while i < len(best) and not out_of_budget():
-        if best[i] != 0:
-            got = attempt(best[:i] + [0] + best[i + 1:])
-            if got is not None:
-                best = got
-                continue
-            v, lo = best[i], 1
-            while lo < v and not out_of_budget():
-                mid = (lo + v) // 2
-                got = attempt(best[:i] + [mid] + best[i + 1:])
-                if got is not None and len(got) > i and got[i] == mid:
-                    best, v = got, mid
-                else:
-                    lo = mid + 1
-        i += 1
-    return _strip(best), runs[0]
+    # (2) zero single draws (all nonzero positions in one parallel round, repeated)
+    for _ in range(6):
+        if out_of_budget():
+            break
+        idx = [i for i, v in enumerate(best) if v != 0]
+        cands = [best[:i] + [0] + best[i + 1:] for i in idx]
+        got = round_(cands)
+        if got is None or (len(got), sum(got)) >= (len(best), sum(best)):
+            break
+        best = got
+    # (3) lower single draws
+    for _ in range(4):
+        if out_of_budget():
+            break
+        cands = []
+        for i, v in enumerate(best):
+            if v > 1:
+                cands.append(best[:i] + [v // 2] + best[i + 1:])
+                cands.append(best[:i] + [v - 1] + best[i + 1:])
+        got = round_(cands)
+        if got is None or (len(got), sum(got)) >= (len(best), sum(best)):
+            break
+        best = got
+    return _strip(best), evaluated[0]
